@@ -320,7 +320,9 @@ METHODS = []      # dispatchable methods in order
 RET_TEXT = {"u64": " -> u64", "unit": "", "refarg": " -> &'a u64", "refdeps": " -> &'a u64",
             "result": " -> Result<u64, u64>", "tracked": " -> Tracked", "opt": " -> Option<u64>",
             "implfp": " -> impl Fp", "explicit_unit": " -> ()",
-            "boolr": " -> bool", "u8r": " -> u8", "u32r": " -> u32", "i32r": " -> i32", "usizer": " -> usize"}
+            "boolr": " -> bool", "u8r": " -> u8", "u32r": " -> u32", "i32r": " -> i32", "usizer": " -> usize",
+            "iter": " -> impl Iterator<Item = u64>", "tuple2": " -> (u64, u64)", "arr2r": " -> [u64; 2]", "range": " -> std::ops::Range<u64>",
+            "implfn": " -> impl Fn(u64) -> u64", "optt": " -> Option<Tracked>", "resunit": " -> Result<(), u64>"}
 
 
 def ret_tail(fn, ch, depsb=None):
@@ -352,6 +354,27 @@ def ret_tail(fn, ch, depsb=None):
     elif fn.ret == "tracked":
         lines.append(f"let __r = sim::exit(__f, &[{ch}]);")
         lines.append("Tracked::new(__r)")
+    elif fn.ret == "iter":
+        lines.append(f"let __r = sim::exit(__f, &[{ch}]);")
+        lines.append("[__r, __r ^ 1, __r ^ 2].into_iter()")
+    elif fn.ret == "tuple2":
+        lines.append(f"let __r = sim::exit(__f, &[{ch}]);")
+        lines.append("(__r, __r ^ 1)")
+    elif fn.ret == "arr2r":
+        lines.append(f"let __r = sim::exit(__f, &[{ch}]);")
+        lines.append("[__r, __r ^ 1]")
+    elif fn.ret == "range":
+        lines.append(f"let __r = sim::exit(__f, &[{ch}]);")
+        lines.append("__r..(__r + 3)")
+    elif fn.ret == "implfn":
+        lines.append(f"let __r = sim::exit(__f, &[{ch}]);")
+        lines.append("move |x: u64| x ^ __r")
+    elif fn.ret == "optt":
+        lines.append(f"let __r = sim::exit(__f, &[{ch}]);")
+        lines.append("Some(Tracked::new(__r))")
+    elif fn.ret == "resunit":
+        lines.append(f"let __r = sim::exit(__f, &[{ch}]);")
+        lines.append("if __r & 1 == 0 { Ok(()) } else { Err(__r) }")
     else:
         raise ValueError(fn.ret)
     return lines
@@ -694,7 +717,8 @@ for k in MATRIX_KINDS:
     single(Fn(f"k_{k}", ("impl", ["F0"]), [k, "u64", k]))
     if k not in ASYNC_SKIP:
         single(Fn(f"ak_{k}", ("impl", ["Af0"]), [k, "u64", k], is_async=True))
-MATRIX_RETS = ["u64", "unit", "explicit_unit", "result", "opt", "tracked", "implfp", "boolr", "u8r", "u32r", "i32r", "usizer"]
+MATRIX_RETS = ["u64", "unit", "explicit_unit", "result", "opt", "tracked", "implfp", "boolr", "u8r", "u32r", "i32r", "usizer",
+               "iter", "tuple2", "arr2r", "range", "implfn", "optt", "resunit"]
 for r in MATRIX_RETS:
     single(Fn(f"rk_{r}", ("impl", ["F0"]), ["u64", "u64"], ret=r, calls=["f0"]))
     single(Fn(f"ark_{r}", ("impl", ["Af0"]), ["u64", "u64"], ret=r, is_async=True, calls=["af0"]))
@@ -990,7 +1014,7 @@ trait_section("PlainK", "self", [Fn(f"pk_{r}", SELF, ["u64", "u64"], ret=r) for 
               + [Fn(f"apk_{r}", SELF, ["u64", "u64"], ret=r, is_async=True) for r in HOMOG_RETS])
 trait_section("PlainKH", "self", [Fn(f"pkh_{r}", SELF, ["u64", "u64"], ret=r) for r in TRAIT_RETS_H]
               + [Fn(f"apkh_{r}", SELF, ["u64", "u64"], ret=r, is_async=True) for r in TRAIT_RETS_H])
-DYN_RETS_H = [r for r in TRAIT_RETS_H if r != "implfp"]
+DYN_RETS_H = [r for r in TRAIT_RETS_H if r not in ("implfp", "iter", "implfn")]
 trait_section("ByRefKH", "ref", [Fn(f"rkh_{r}", SELF, ["u64", "u64"], ret=r) for r in DYN_RETS_H], supers=": 'static")
 trait_section("ByBorrowKH", "borrow", [Fn(f"bkh_{r}", SELF, ["u64", "u64"], ret=r) for r in DYN_RETS_H], supers=": 'static")
 trait_section("ARefKH", "ref", [Fn(f"arkh_{r}", SELF, ["u64", "u64"], ret=r, is_async=True) for r in DYN_RETS_H],
@@ -1311,6 +1335,9 @@ def local_scope():
         Fn("loc_gen", ("any", []), ["u64", "u64"], opts="mock_api = LocGenMock, export"),
         Fn("aloc_nd", ("nodeps", []), ["u64", "u64"], opts="no_deps, mock_api = AlocNdMock, export", is_async=True),
         Fn("loc_plain", ("any", []), ["u64", "u64"]),
+        Fn("loc_same", ("any", []), ["u64", "same:u64"]),
+        Fn("loc_same_m", ("any", []), ["u64", "same:u64"], opts="mock_api = LocSameMMock, export"),
+        Fn("loc_nd_same", ("nodeps", []), ["u64", "same:u64"], opts="no_deps, mock_api = LocNdSameMock, export"),
     ]
     for fn in specs:
         register(fn)
@@ -1350,6 +1377,138 @@ def local_scope():
 
 
 local_scope()
+
+
+# --------------------------------------------------------------------------
+# entrait invocations produced by macro_rules!, where two parameters are
+# spelled the same but carry different hygiene (one named by the macro body,
+# one by its caller) — valid Rust, and a trap for generated code that re-spans
+# identifiers
+# --------------------------------------------------------------------------
+def macro_generated():
+    cid = new_container()
+    cfg = ccfg(cid)
+    text = cmark(cid)
+
+    def reg(name, is_async, section, props, pair=False, unmock=False):
+        fn = Fn(name, ("impl", ["F0"]), ["u64", "u64"], is_async=is_async)
+        if pair:
+            FN_COUNTER[0] += 2
+            fn.fn_id = FN_COUNTER[0] - 1
+            fn.fn_ids = (fn.fn_id, fn.fn_id + 1)
+            fn.method_id = METHOD_COUNTER[0]
+            METHOD_COUNTER[0] += 1
+            METHODS.append(fn)
+            assert name not in ALL_FNS
+            ALL_FNS[name] = fn
+        else:
+            register(fn)
+        fn.cid = cid
+        fn.section = section
+        fn.props = list(props)
+        fn.lookups = 0
+        if unmock:
+            UNMOCK.append(fn)
+        return fn
+
+    body = ("            let __f = sim::enter($id, $recv, &[$p, dup]);\n            sim::user_alloc(&__f);\n            $pause\n            sim::exit(__f, &[])\n")
+    # entraited traits: Self and ref delegation
+    t1 = reg("mac_p", False, "trait", ("C06", "C14"), pair=True)
+    t2 = reg("mac_r", False, "trait", ("C06",), pair=True)
+    t2.dynamic = True
+    t3 = reg("mac_ap", True, "trait", ("C06", "C14"), pair=True)
+    text += (f"{cfg}macro_rules! mk_mac_trait {{\n    ($tr:ident, $m:ident, $am:ident, $p:ident, $id:expr, $aid:expr) => {{\n        #[entrait]\n        pub trait $tr {{\n"
+             "            fn $m(&self, $p: u64, dup: u64) -> u64;\n            async fn $am(&self, $p: u64, dup: u64) -> u64;\n        }\n"
+             "        impl<const K: u16> $tr for App<K> {\n            fn $m(&self, $p: u64, dup: u64) -> u64 {\n"
+             "                let __f = sim::enter($id + K, sim::addr(self), &[$p, dup]);\n                sim::user_alloc(&__f);\n                sim::sync_point(&__f);\n                sim::exit(__f, &[])\n            }\n"
+             "            async fn $am(&self, $p: u64, dup: u64) -> u64 {\n"
+             "                let __f = sim::enter($aid + K, sim::addr(self), &[$p, dup]);\n                sim::user_alloc(&__f);\n                sim::pause(&__f).await;\n                sim::exit(__f, &[])\n            }\n        }\n    };\n}\n")
+    text += f"{cfg}mk_mac_trait!(MacPlain, mac_p, mac_ap, dup, {t1.fn_id}, {t3.fn_id});\n"
+    for t in (t1, t3):
+        t.trait_call = f"app.{t.name}({{args}})"
+        t.direct_call = f"MacPlain::{t.name}(app.as_ref(), {{args}})"
+        t.recv_expr = "sim::addr(app.as_ref())"
+    k = lookup_kind("MacRef")
+    APP_FIELDS.append("prov_macref")
+    text += (f"{cfg}macro_rules! mk_mac_reftrait {{\n    ($tr:ident, $m:ident, $p:ident, $id:expr) => {{\n        #[entrait(delegate_by = ref)]\n        pub trait $tr: 'static {{\n"
+             "            fn $m(&self, $p: u64, dup: u64) -> u64;\n        }\n        impl $tr for Prov {\n            fn $m(&self, $p: u64, dup: u64) -> u64 {\n"
+             "                let __f = sim::enter($id + self.which, sim::addr(self), &[$p, dup]);\n                sim::user_alloc(&__f);\n                sim::sync_point(&__f);\n                sim::exit(__f, &[])\n            }\n        }\n    };\n}\n")
+    text += f"{cfg}mk_mac_reftrait!(MacRef, mac_r, dup, {t2.fn_id});\n"
+    text += (f"{cfg}impl<const K: u16> AsRef<dyn MacRef> for App<K> {{\n    fn as_ref(&self) -> &(dyn MacRef + 'static) {{\n        sim::lookup({k});\n        &self.prov_macref\n    }}\n}}\n")
+    t2.trait_call = "app.mac_r({args})"
+    t2.direct_call = "MacRef::mac_r(&app.prov_macref, {args})"
+    t2.recv_expr = "sim::addr(&app.prov_macref)"
+    t2.lookups = 1
+    t2.lookup_kind = k
+    # dependency inversion, static and dynamic
+    i1 = reg("mac_i", False, "inversion", ("C07", "C14"), pair=True)
+    i2 = reg("mac_d", False, "inversion", ("C07",), pair=True)
+    i2.dynamic = True
+    text += "pub struct MacInvTargetA(pub u64);\npub struct MacInvTargetB(pub u64);\npub struct MacDynTargetA(pub u64);\npub struct MacDynTargetB(pub u64);\n"
+    text += (f"{cfg}macro_rules! mk_mac_inv {{\n    ($tr:ident, $imp:ident, $del:ident, $m:ident, $p:ident) => {{\n        #[entrait($imp, delegate_by = $del)]\n        pub trait $tr {{\n"
+             "            fn $m(&self, $p: u64, dup: u64) -> u64;\n        }\n    };\n}\n")
+    text += (f"{cfg}macro_rules! mk_mac_dyninv {{\n    ($tr:ident, $imp:ident, $m:ident, $p:ident) => {{\n        #[entrait($imp, delegate_by = ref)]\n        pub trait $tr {{\n"
+             "            fn $m(&self, $p: u64, dup: u64) -> u64;\n        }\n    };\n}\n")
+    text += f"{cfg}mk_mac_inv!(MacInv, MacInvImpl, DelegateMacInv, mac_i, dup);\n{cfg}mk_mac_dyninv!(MacDyn, MacDynImpl, mac_d, dup);\n"
+    kd = lookup_kind("MacDyn")
+    for which, ab in enumerate("AB"):
+        text += (f"{cfg}#[entrait]\nimpl MacInvImpl for MacInvTarget{ab} {{\n    pub fn mac_i(deps: &impl F0, p0: u64, p1: u64) -> u64 {{\n"
+                 f"        let __f = sim::enter({i1.fn_ids[which]}, sim::addr(deps), &[p0, p1]);\n        sim::user_alloc(&__f);\n        sim::sync_point(&__f);\n        sim::exit(__f, &[])\n    }}\n}}\n"
+                 f"{cfg}impl DelegateMacInv<Self> for App<{which}> {{\n    type Target = MacInvTarget{ab};\n}}\n")
+        field = f"dyn_macdyn_{ab.lower()}"
+        APP_FIELDS_TYPED.append((field, f"MacDynTarget{ab}"))
+        text += (f"{cfg}#[entrait(ref)]\nimpl MacDynImpl for MacDynTarget{ab} {{\n    pub fn mac_d(deps: &impl F0, p0: u64, p1: u64) -> u64 {{\n"
+                 f"        let __f = sim::enter({i2.fn_ids[which]}, sim::addr(deps), &[p0, p1]);\n        sim::user_alloc(&__f);\n        sim::sync_point(&__f);\n        sim::exit(__f, &[])\n    }}\n}}\n"
+                 f"{cfg}impl AsRef<dyn MacDynImpl<Self>> for App<{which}> {{\n    fn as_ref(&self) -> &(dyn MacDynImpl<Self> + 'static) {{\n        sim::lookup({kd});\n        &self.{field}\n    }}\n}}\n")
+    i1.trait_call = "app.mac_i({args})"
+    i1.direct_call = "MacInvTarget{AB}::mac_i(app, {args})"
+    i1.recv_expr = "sim::addr(app)"
+    i2.trait_call = "app.mac_d({args})"
+    i2.direct_call = "MacDynTarget{AB}::mac_d(app, {args})"
+    i2.recv_expr = "sim::addr(app)"
+    i2.lookups = 1
+    i2.lookup_kind = kd
+    corpus.append(text + cmark(0))
+
+
+macro_generated()
+
+
+# --------------------------------------------------------------------------
+# two generated traits with the SAME name in different modules, one depending
+# on the other (layered `repo::GetUser` / `service::GetUser`)
+# --------------------------------------------------------------------------
+def layered_same_name():
+    cid = new_container()
+    cfg = ccfg(cid)
+    repo = Fn("layr_get_user", ("impl", ["U0"]), ["u64", "u64"])
+    svc = Fn("lays_get_user", ("impl", ["U0"]), ["u64", "u64"])
+    for fn in (repo, svc):
+        register(fn)
+        fn.cid = cid
+        fn.section = "unmock"
+        fn.props = ["C01", "C11"]
+        fn.lookups = 0
+        UNMOCK.append(fn)
+    u0 = ALL_FNS["u0"]
+    text = cmark(cid)
+    text += (f"{cfg}pub mod lay_repo {{\n    use super::*;\n    #[entrait(pub GetUser, mock_api = RepoGetUserMock, export)]\n"
+             f"    pub fn get_user(deps: &impl U0, p0: u64, p1: u64) -> u64 {{\n        let __f = sim::enter({repo.fn_id}, sim::addr(deps), &[p0, p1]);\n        sim::user_alloc(&__f);\n        sim::sync_point(&__f);\n"
+             f"        let __t0 = sim::call_start({u0.method_id}, sim::addr(deps), &[]);\n        let __c0 = deps.u0();\n        sim::call_end(__t0, __c0);\n        sim::exit(__f, &[__c0])\n    }}\n}}\n")
+    text += (f"{cfg}pub mod lay_service {{\n    use super::*;\n    #[entrait(pub GetUser, mock_api = ServiceGetUserMock, export)]\n"
+             f"    pub fn get_user(deps: &impl super::lay_repo::GetUser, p0: u64, p1: u64) -> u64 {{\n        let __f = sim::enter({svc.fn_id}, sim::addr(deps), &[p0, p1]);\n        sim::user_alloc(&__f);\n        sim::sync_point(&__f);\n"
+             f"        let __a0 = [sim::sub(&__f, 0), sim::sub(&__f, 1)];\n        let __t0 = sim::call_start({repo.method_id}, sim::addr(deps), &__a0);\n"
+             f"        let __c0 = super::lay_repo::GetUser::get_user(deps, __a0[0], __a0[1]);\n        sim::call_end(__t0, __c0);\n        sim::exit(__f, &[__c0])\n    }}\n}}\n")
+    repo.trait_call = "lay_repo::GetUser::get_user(app, {args})"
+    repo.direct_call = "lay_repo::get_user(app, {args})"
+    repo.recv_expr = "sim::addr(app)"
+    svc.trait_call = "lay_service::GetUser::get_user(app, {args})"
+    svc.direct_call = "lay_service::get_user(app, {args})"
+    svc.recv_expr = "sim::addr(app)"
+    corpus.append(text + cmark(0))
+
+
+layered_same_name()
 
 # --------------------------------------------------------------------------
 # concrete-dependency second hop and Impl<ConcDep> handle
@@ -1450,6 +1609,14 @@ def build_args(fn):
 def ret_fp(fn):
     if fn.ret in SMALL_RETS:
         return "__r as u64"
+    extra = {"iter": "{ let mut __it = __r; let a = __it.next().unwrap_or(0); let b = __it.next().unwrap_or(0); let c = __it.next().unwrap_or(0); if b == a ^ 1 && c == a ^ 2 { a } else { u64::MAX } }",
+             "tuple2": "{ if __r.1 == __r.0 ^ 1 { __r.0 } else { u64::MAX } }", "arr2r": "{ if __r[1] == __r[0] ^ 1 { __r[0] } else { u64::MAX } }",
+             "range": "{ if __r.end == __r.start + 3 { __r.start } else { u64::MAX } }", "implfn": "__r(0)",
+             "optt": "{ match __r { Some(t) => { let id = t.id; drop(t); id } None => u64::MAX } }"}
+    if fn.ret in extra:
+        return extra[fn.ret]
+    if fn.ret == "resunit":
+        return "match __r { Ok(()) => 0, Err(x) => x }"
     return {"u64": "__r", "unit": "{ let () = __r; 0 }", "explicit_unit": "{ let () = __r; 0 }", "implfp": "sim::Fp::fp(&__r)", "refarg": "*__r", "refdeps": "*__r",
             "result": "match __r { Ok(x) | Err(x) => x }", "opt": "__r.unwrap_or(0)",
             "tracked": "{ let id = __r.id; drop(__r); id }"}[fn.ret]
@@ -1539,7 +1706,7 @@ for fn in METHODS:
     callees = [ALL_FNS[c].method_id for c in fn.calls]
     disp += (f"    MethodModel {{ id: {fn.method_id}, name: \"{fn.name}\", section: \"{fn.section}\", is_async: {str(fn.is_async).lower()}, "
              f"dynamic: {str(fn.dynamic).lower()}, fn_id: [{fn_ids[0]}, {fn_ids[1]}], nfp: {len(fps)}, nvals: {used}, "
-             f"lookups: {getattr(fn, 'lookups', 0)}, lookup_kind: {getattr(fn, 'lookup_kind', 0)}, ret_unit: {str(fn.ret in ('unit', 'explicit_unit')).lower()}, "
+             f"lookups: {getattr(fn, 'lookups', 0)}, lookup_kind: {getattr(fn, 'lookup_kind', 0)}, ret_unit: {str(fn.ret in ('unit', 'explicit_unit', 'resunit')).lower()}, "
              f"callees: &{callees}, props: &{list(fn.props)!r}, unmockable: {str(fn in UNMOCK).lower()}, "
              f"available: cfg!(not(skip_c{fn.cid})), container: {fn.cid} }},\n").replace("'", '"')
 disp += "];\n\n"
